@@ -83,6 +83,12 @@ def fingerprint():
                             out[f"{label}.{an}"] = _render(av, 0, frozenset())
             elif isinstance(val, (types.ModuleType, logging.Logger, types.BuiltinFunctionType)):
                 continue
+            elif hasattr(val, "cache_info") and hasattr(val, "__wrapped__"):      # functools.lru_cache / cache
+                if (getattr(val, "__module__", "") or "").startswith("prtpy"):
+                    try:
+                        out[label + ".<lru size>"] = repr(val.cache_info().currsize)
+                    except Exception:
+                        pass
             else:
                 out[label] = _render(val, 0, frozenset())
     out["<modules>"] = ",".join(sorted(m for m in sys.modules if m == "prtpy" or m.startswith("prtpy.")))
